@@ -173,6 +173,15 @@ inductive Interleave {γ : Type} : List γ → List γ → List γ → Prop wher
   | left {a b l : List γ} (x : γ) : Interleave a b l → Interleave (x :: a) b (x :: l)
   | right {a b l : List γ} (x : γ) : Interleave a b l → Interleave a (x :: b) (x :: l)
 
+/-- keys reach the disk through `cache.name_fn`: the runs above are over FILE NAMES; this is the input list
+after naming -/
+def named {κ ν α : Type} (name : κ → ν) (inputs : List (κ × α)) : List (ν × α) :=
+  inputs.map fun kv => (name kv.1, kv.2)
+
+/-- `name_fn` keeps apart every two keys of the run that stand for different inputs -/
+def NamesSeparate {κ ν α : Type} (name : κ → ν) (inputs : List (κ × α)) : Prop :=
+  ∀ a ∈ inputs, ∀ b ∈ inputs, name a.1 = name b.1 → a.2 = b.2
+
 /-- one interrupted run: a killed pool (per-key progress) or a killed sequential map -/
 inductive Interrupted (κ α : Type) where
   | pool (prog : κ → Progress) (inputs : List (κ × α))
